@@ -96,7 +96,19 @@ pub fn campaign(ctx: &mut Ctx, target: &str, dict: Option<&str>, max_len: usize,
             out.push(a);
             continue;
         }
-        if name.starts_with("timeout-") || name.starts_with("oom-") || name.starts_with("slow-unit-") {
+        if name.starts_with("slow-unit-") {
+            // libFuzzer's note that one input took more than 10 s (a loaded machine is enough); the campaign went on
+            // and the input was executed and judged like every other: counted, not a verdict of any kind
+            *ctx.stats.extra.entry("fuzz_slow_units_noted".to_string()).or_insert(serde_json::json!(0)) = serde_json::json!(ctx.stats.extra.get("fuzz_slow_units_noted").and_then(|v| v.as_u64()).unwrap_or(0) + 1);
+            let _ = std::fs::remove_file(&a);
+            continue;
+        }
+        if name.starts_with("timeout-") && target == "ops" {
+            // re-run in a fresh process with a generous limit: a real hang stays a hang there
+            out.push(a);
+            continue;
+        }
+        if name.starts_with("timeout-") || name.starts_with("oom-") {
             ctx.inconclusive.push(format!("libFuzzer reported {} (kept at {}); a time/memory budget hit is not a violation", name, a.display()));
             continue;
         }
@@ -116,6 +128,11 @@ pub fn ops_campaign(ctx: &mut Ctx, prop: &str, runs: u64, jobs: usize) {
                 if let Some(st) = out.lines().last().and_then(|l| serde_json::from_str::<Stats>(l).ok()) {
                     ctx.stats.merge(st);
                 }
+            }
+            Some(0) if a.file_name().map_or(false, |n| n.to_string_lossy().starts_with("timeout-")) => {
+                // completed, and judged clean, in a fresh process within its limit: the 20 s in-campaign timeout was the machine's load
+                *ctx.stats.extra.entry("fuzz_timeouts_rerun_clean".to_string()).or_insert(serde_json::json!(0)) = serde_json::json!(ctx.stats.extra.get("fuzz_timeouts_rerun_clean").and_then(|v| v.as_u64()).unwrap_or(0) + 1);
+                let _ = std::fs::remove_file(&a);
             }
             Some(0) => ctx.inconclusive.push(format!("libFuzzer artifact {} does not reproduce in a fresh process", a.display())),
             other => ctx.inconclusive.push(format!("libFuzzer artifact {} terminates a fresh process (exit {:?}) — kept for inspection", a.display(), other)),
